@@ -15,7 +15,7 @@ META = dict(
     stubs=['fake socket', 'logging', 'threading.Thread/Event in clck_gen (no real thread: start() marks it alive)', 'signal.signal', 'sys.argv', 'stdout of the copyright banner'],
     outside=['more than 5 transceivers', 'the clock thread body (C09) and tick dispatch (C03)'],
     assumptions=['finite control state is enumerated by forking, numeric values are decided by the solver', 'by induction over the command history the invariant holds after any sequence: it holds initially (checked) and every command re-establishes it (checked from every pre-state satisfying it)'],
-    explanation='invariant: clock links == links of running clock-owning transceivers, generator running <=> some link; step: status and running set per the documented semantics, POWEROFF clears hopping and queues of every affected transceiver')
+    explanation='invariant: clock links == links of running clock-owning transceivers, generator running <=> some link; after the step one tick of the real send_clck_ind at an indication frame reaches exactly the running clock owners; step: status and running set per the documented semantics, POWEROFF clears hopping and queues of every affected transceiver')
 
 CONFIGS = {
     'bts+ms': [],
@@ -64,6 +64,18 @@ def invariant(ctx, app, name):
     ctx.check(name + ':links==running-clock-owners', len(links) == len(want) and all(any(l is w for l in links) for w in want),
               links=len(links), want=len(want))
     ctx.check(name + ':generator-running<=>links', app.clck_gen.running == (len(want) > 0), running=app.clck_gen.running)
+    if name != 'post' or not app.clck_gen.running: return
+    # observed distribution: one tick of the running generator at an indication frame
+    gen = app.clck_gen
+    gen.clck_handler = None                     # tick dispatch is C03's subject
+    gen.clck_src = 7 * gen.ind_period
+    owners = clock_owners(app)
+    before = [len(t.clck_if.sock.sent) for t in owners]
+    with ctx.no_raise('tick:no-exception'):
+        gen.send_clck_ind()
+    for t, b in zip(owners, before):
+        ctx.check('%s:clock-indication-%s' % (t.name, 'received' if t.running else 'not-received'), len(t.clck_if.sock.sent) - b == (1 if t.running else 0),
+                  got=len(t.clck_if.sock.sent) - b)
 
 
 def h_init(ctx, cfg):
